@@ -17,6 +17,20 @@ pub fn strings_all() -> Vec<String> {
             }
         }
     }
+    // a keyword immediately followed by a name (an OpenNARS-style "^op" used as a connecter, a
+    // connecter or copula with trailing text): not a keyword of any category
+    for f in fmts::all() {
+        let mut ks: Vec<&str> = vec![];
+        ks.extend(f.atom_prefixes());
+        ks.extend(f.connecters());
+        ks.extend(f.copulas());
+        for k in ks {
+            let s = format!("{k}op");
+            if !k.is_empty() && !v.contains(&s) {
+                v.push(s);
+            }
+        }
+    }
     v.extend(long_garbage());
     v
 }
